@@ -26,7 +26,7 @@ RULE = ("case = (generated HDF4 file, option set 1, option set 2).  Files: 0-3 n
         "succeeded on a file with >= 1 SDS or image and >= 1 option; distinct by (file script, options)")
 TRUSTED = ["Coq 8.16.1 kernel", "extraction (ExtrOcamlBasic only; Z/positive/nat inductive)",
            "translator gen_consts.py + plugin gen/plugins/repack_tabs.py (keyword tables, parameter ranges, threshold, "
-           "branch conditions of copy_sds/copy_gr -> gen/Gen_Repack.v)",
+           "branch conditions of copy_sds/copy_gr, buffer constants and the statements of the strip-mining loop -> gen/Gen_Repack.v)",
            "OCaml driver extract/repack_main.ml; C harness harness/drive_repack.c (file generator and API-level content "
            "dumper: SD, GR, V, VS, AN interfaces and Hfind/Hgetelement for palettes), harness/drive_repack_fn.c; generator, "
            "canonicalisation and comparison in checks/C18.py",
@@ -201,7 +201,7 @@ def gen_file(r, knobs=None):
     for _ in range(nvs):
         name = fresh("v")
         cls = fresh("vc") if r.random() < 0.5 else ""
-        nf = r.choice([1, 1, 2, 3])
+        nf = r.choice([1, 2, 2, 3, 4])
         fl = []
         for i in range(nf):
             fl.append("%s %d %d" % (hx(fresh("f")), r.choice(NTS), r.choice([1, 1, 2, 3])))
@@ -209,7 +209,8 @@ def gen_file(r, knobs=None):
         kvs = ["seed=%d" % r.randrange(1, 10 ** 6)]
         if pid >= 0:
             kvs.append("parent=%d" % pid)
-        lines.append("vs %s %s %d %d %d %s %s" % (hx(name), hx(cls), 0, r.choice([0, 1, 2, 5, 20, 100]), nf,
+        # both interlaces (0 = FULL_INTERLACE, 1 = NO_INTERLACE): with several fields and records the two layouts differ
+        lines.append("vs %s %s %d %d %d %s %s" % (hx(name), hx(cls), r.choice([0, 1]), r.choice([0, 1, 2, 3, 5, 20, 100]), nf,
                                                   " ".join(fl), " ".join(kvs)))
         attrs(2)
         if r.random() < 0.4:
@@ -787,6 +788,73 @@ def shrink(T, case, res, budget=24):
     return cur, curres
 
 
+def tool_buffer_bytes():
+    """hrepack's strip-mining buffer (H4TOOLS_BUFSIZE) and one-piece limit (H4TOOLS_MALLOCSIZE) as the translator
+    regenerated them from hrepack_sds.c for this run"""
+    import re
+    txt = open(os.path.join(vc.VERIF, "coq", "gen", "Gen_Repack.v")).read()
+    out = []
+    for n in ("H4TOOLS_BUFSIZE", "H4TOOLS_MALLOCSIZE"):
+        m = re.search(r"Definition %s : Z := (\d+)\." % n, txt)
+        out.append(int(m.group(1)) if m else 1 << 20)
+    return out
+
+
+def gen_large_cases(r):
+    """inputs above every internal buffer of hrepack: SDS of 1x, 2x, 3x the strip-mining buffer +- a row, ranks 2-4,
+    with the block below the slowest dimension both smaller and larger than the buffer; a vdata and images larger than
+    the buffer.  Data of this size are compared through digests (whole array + 16 segments)."""
+    B, M = tool_buffer_bytes()
+    q = max(B // 1048576, 1)
+    shapes = [   # (number type, dims)
+        (21, [3, B + 5]),                       # rows larger than the buffer, cut into 2 strips each
+        (22, [3, B // 2 + B // 8]),             # int16 rows of 1.25 buffers
+        (24, [3, 300 * q, B // 4096 + 744]),    # planes of ~1.2 buffers, rows far smaller
+        (21, [M // 256 + 1, 256]),              # one buffer + a row, rows far smaller than the buffer
+        (22, [2 * B // 512 - 1, 256]),          # two buffers - a row
+        (20, [3 * B // 8192 + 1, 64, 128]),     # three buffers + a plane
+        (23, [2, 3, 200 * q, B // 2048 + 488]),  # rank 4, block below the slowest dimension 1.2 buffers
+        (21, [5, 7, 100 * q, B // 4096 + 44]),  # rank 4, a little over one buffer, blocks far smaller
+        (6, [2, 400 * q, B // 8192 + 72]),      # float64, planes of 0.6 buffers
+        (21, [M // 1024, 1024]),                # exactly the one-piece limit: strip-mined
+        (21, [M // 1024 - 1, 1024]),            # one row below it: copied in one piece
+    ]
+    cases = []
+    for k, (nt, dims) in enumerate(shapes):
+        name = "big%d" % k
+        script = ["sds %s %d 0 %d %s seed=%d pat=0 write=all" % (hx(name), nt, len(dims), " ".join(map(str, dims)),
+                                                                 r.randrange(1, 10 ** 6)),
+                  "attr %s 24 2 %d" % (hx("a_" + name), r.randrange(1, 10 ** 6)),
+                  "sds %s 22 0 2 7 9 seed=%d write=all" % (hx("small%d" % k), r.randrange(1, 10 ** 6))]
+        nb = NTSIZE[nt]
+        for d in dims:
+            nb *= d
+        chunk = [max(1, (d + r.choice([1, 2, 3])) // r.choice([2, 3, 4])) if d > 8 else r.choice([1, d]) for d in dims]
+        menu = [[], [("c", [name], len(dims), chunk)], [("t", ["*"], 4, 1), ("c", [name], len(dims), chunk)],
+                [("t", [name], r.choice([1, 4]), 1 if True else -1)], [("c", ["*"], -2, [])], []]
+        o1 = list(r.choice(menu))
+        o1 = [(i[0], i[1], i[2], (-1 if i[0] == "t" and i[2] == 1 else i[3])) if i[0] == "t" else i for i in o1]
+        o2 = r.choice([[("t", ["*"], 0, -1)], [("c", ["*"], -2, [])], [("c", [name], len(dims), chunk)], []])
+        cases.append(dict(id="L%d" % k, script=script, opts1=o1, opts2=o2, file1=False, file2=False, structured=True))
+    # a vdata above the buffer in each interlace, several fields; images above the buffer in each interlace
+    for k, il in enumerate([0, 1]):
+        nrec = B // 12 + 1000
+        script = ["vs %s %s %d %d 3 %s 24 1 %s 5 1 %s 22 2 seed=%d" % (hx("bigv%d" % il), hx("cls"), il, nrec, hx("id"),
+                                                                        hx("x"), hx("pair"), r.randrange(1, 10 ** 6)),
+                  "attr %s 24 1 7" % hx("va")]
+        cases.append(dict(id="LV%d" % k, script=script, opts1=[("t", ["*"], 1, -1)], opts2=[], file1=False, file2=False,
+                          structured=True))
+    for k, (il, ncomp, xd, yd) in enumerate([(0, 1, B // 1024 + 76, 1000 * q), (1, 3, 700 * q, B // 2048 + 88),
+                                             (2, 3, 600 * q, B // 2048 + 188)]):
+        name = "bigim%d" % k
+        script = ["gr %s 21 %d %d %d %d seed=%d pat=0" % (hx(name), ncomp, il, xd, yd, r.randrange(1, 10 ** 6)),
+                  "pal %d" % r.randrange(1, 10 ** 6)]
+        o1 = r.choice([[], [("t", [name], 4, 1)], [("c", [name], 2, [xd // 3 + 1, yd // 2 + 1])]])
+        cases.append(dict(id="LI%d" % k, script=script, opts1=o1, opts2=[("t", ["*"], 0, -1)], file1=False, file2=False,
+                          structured=True))
+    return cases
+
+
 def gen_case(r, cid):
     kind = r.random()
     script, shadow = gen_file(r)
@@ -814,8 +882,13 @@ def run(ctx):
             cases.append(c)
             ncorpus += 1
     n = 400 if ctx.tier == "quick" else 6000
+    large = gen_large_cases(r)
+    if ctx.tier == "thorough":
+        large += [dict(c, id=c["id"] + "b") for c in gen_large_cases(r)] + [dict(c, id=c["id"] + "c") for c in gen_large_cases(r)]
+    cases += large
     cases += [gen_case(r, "g%d" % i) for i in range(n)]
-    stats = {"cases": len(cases), "corpus_cases": ncorpus, "generator_errors": 0, "passes": 0, "status": {},
+    stats = {"cases": len(cases), "corpus_cases": ncorpus, "cases_above_tool_buffer": len(large),
+             "tool_buffer_bytes": tool_buffer_bytes()[0], "generator_errors": 0, "passes": 0, "status": {},
              "objects_sds_gr": 0, "known_finding_cases": 0, "option_modes": {}, "requested_comp": {}, "option_file_runs": 0}
     for c in cases:
         for key in ("opts1", "opts2"):
